@@ -114,6 +114,9 @@ def check(theorem_module, extra_targets=("driver",)):
     res["obligations"] = n_decl
     res["modules"] = mods
     with LakeLock():
+        from . import gen_driver
+
+        gen_driver.generate()
         rc, out = run(["lake", "build", theorem_module, *extra_targets])
         if rc != 0:
             res["ok"] = False
